@@ -462,11 +462,20 @@ def np_ukf(fam: NpFam, kk, u, y, Q, R, x, P):
     invPy = float(np.abs(Pyi).max()) * p
     Kmax = float(np.abs(K).max())
     dK = dPxy * invPy + Kmax * dPy * invPy * p
-    PyK = float(np.abs(Py @ K.T).max())
-    scaleP = dPm + 2 * p * dK * PyK + p * p * Kmax * Kmax * dPy
+    # first order: P = Pm - Pxy Py^-1 Pxy^T  =>  dP = dPm - 2 dPxy K^T + K dPy K^T  (+ the inverse's own error
+    # kappa * eps * |K||Pxy|^T);  x = xe + K (y - ye), dK = (dPxy - K dPy) Py^-1 (+ kappa * eps * |K|).
+    # `scaleP`, `scalex` are the parts multiplied by kappa in the tolerance, `addP`, `addx` the parts that are not.
+    kap = float(np.linalg.cond(Py))
     inn = float(np.abs(y).max()) + wsum * gpre
-    scalex = wsum * fpre + p * Kmax * inn + p * dK * float(np.abs(y - ye).max())
-    return {"kappa": float(np.linalg.cond(Py)), "kappaPm": float(np.linalg.cond(Pm)), "scaleP": scaleP, "scalex": scalex,
+    KPxy = float((np.abs(K) @ np.abs(Pxy).T).max())
+    addP = dPm + 2 * p * dPxy * Kmax + p * p * Kmax * Kmax * dPy
+    addx = wsum * fpre + p * Kmax * inn + p * (dPxy + p * Kmax * dPy) * invPy * float(np.abs(y - ye).max())
+    scaleP = KPxy
+    scalex = p * Kmax * float(np.abs(y - ye).max())
+    # fold into one pair so that tol = CTOL * eps * kappa * scale reproduces  kappa*scale + add
+    scaleP = scaleP + addP / max(kap, 1.0)
+    scalex = scalex + addx / max(kap, 1.0)
+    return {"kappa": kap, "kappaPm": float(np.linalg.cond(Pm)), "scaleP": scaleP, "scalex": scalex,
             "w0": w0, "lamPm": float(np.linalg.eigvalsh((Pm + Pm.T) / 2).min()), "dPm": dPm}
 
 
